@@ -312,6 +312,16 @@ func hostile(p plan, n int, port, tport int, rng *rand.Rand, hs *hostileStats) {
 			return
 		}
 		hs.hold(v.c)
+		if p.Val >= 3 {
+			// the victim has asked for a lot and reads nothing: writes to it are blocked when the kick arrives
+			for i := 0; i < 400; i++ {
+				v.id++
+				if _, err := v.c.Write(sim.NewTx(sim.TGetMsgs, v.id).Encode()); err != nil {
+					break
+				}
+			}
+			time.Sleep(300 * time.Millisecond)
+		}
 		o, err := loginTCP(net.IPv4(127, 100, byte(n>>8), byte(n)), port, "op", "op", fmt.Sprintf("kicker-%d", n))
 		if err != nil {
 			atomic.AddInt64(&hs.failedDial, 1)
